@@ -715,12 +715,12 @@ def _norm_index(k, d):
 OOB_HOOK = [None]   # optional callable(cond) invoked with the (symbolic) out-of-bounds condition of a gather
 
 
-def _check_bounds(k, d, a=None):
+def _check_bounds(k, d, a=None, valid=True):
     """An index must lie in [-d, d); symbolic violations are recorded as a path obligation:
     numpy would raise IndexError, so the path on which it is out of range raises too."""
     if isinstance(k, Sym):
         lim = d if (a is None or a.n is None) else a.n
-        bad = or_(k < -d if a is None or a.n is None else k < 0, k >= lim)
+        bad = and_(valid, or_(k < -d if a is None or a.n is None else k < 0, k >= lim))
         if bad is True or (bad is not False and eng().branch(unwrap(bad))):
             raise IndexError(f"index out of bounds for axis with size {d}")
     else:
@@ -794,9 +794,21 @@ def _adv_get(a, key):
             return SArr.new(out, shp, k0.n, a.dtype)
         base = SArr(a.buf, a.offs, a.shape_cap, None, a.dtype)
         rows = []
-        for k in k0.flat_list():
+        for pos, k in enumerate(k0.flat_list()):
             if isinstance(k, Sym):
-                r = _adv_get(a, (k,) + rest)
+                if k0.n is not None and k0.ndim == 1:
+                    # slots of the index array beyond its valid length hold garbage: they must not trigger an IndexError
+                    _check_bounds(k, d0, a, valid=(pos < k0.n))
+                    kk = _norm_index(k, d0)
+                    subs = []
+                    for i in range(d0):
+                        sub = base[i] if a.ndim > 1 else a.buf[a.offs[i]]
+                        if rest:
+                            sub = sub[rest if len(rest) > 1 else rest[0]]
+                        subs.append(sub)
+                    r = _select(kk, subs)
+                else:
+                    r = _adv_get(a, (k,) + rest)
             else:
                 _check_bounds(k, d0, a)
                 kk = _norm_index(k, d0)
@@ -1507,6 +1519,11 @@ def _reduce(a, axis, f, init=None, dt=None, valid_neutral=None):
         r = vals[0] if init is None else f(init, vals[0])
         for v in vals[1:]:
             r = f(r, v)
+        return r
+    if isinstance(axis, (tuple, list)):
+        r = a
+        for ax in sorted([x if x >= 0 else x + a.ndim for x in axis], reverse=True):
+            r = _reduce(r, ax, f, init, dt, valid_neutral)
         return r
     if axis < 0:
         axis += a.ndim
